@@ -123,6 +123,29 @@ def check(ctx: Ctx, ev: Evidence) -> list[Finding]:
             if not ok:
                 out.append(Finding("C17-R2", f"{NF}.{name} | refusal {codes[0]} after {effs[0]}", f"{name} returns the refusal {codes[0]} after performing {effs[0]}", loc(fi, r)))
 
+    ev.rule("C17-R6", "a *_SUCCESS code is returned only on a path that performed the operation's effect", 6)
+    for name in FAMILY:
+        fi = ci.methods.get(name)
+        if name == "list_directory":
+            continue
+        parents = {}
+        for p_ in ast.walk(fi.node):
+            for c_ in ast.iter_child_nodes(p_):
+                parents[c_] = p_
+        for r in [n for n in ast.walk(fi.node) if isinstance(n, ast.Return) and n.value is not None and any("SUCCESS" in c for c in _codes(n))]:
+            prior: list[ast.stmt] = []
+            cur: ast.AST = r
+            while cur is not fi.node:
+                par = parents[cur]
+                for fld in ("body", "orelse"):
+                    blk = getattr(par, fld, None)
+                    if isinstance(blk, list) and cur in blk:
+                        prior = blk[:blk.index(cur)] + prior
+                cur = par
+            effs = [e for s_ in prior for _, e in _effects_in([s_])]
+            ev.inst("C17-R6", f"{name}: {_codes(r)[0]} returned after {effs[-1] if effs else 'NO EFFECT'}", "ok" if effs else "violation", loc(fi, r))
+            if not effs:
+                out.append(Finding("C17-R6", f"{NF}.{name} | {_codes(r)[0]} without effect", f"{name} reports {_codes(r)[0]} on a path that did not perform the operation", loc(fi, r)))
     ATOMIC = {"os.rmdir", "os.mkdir"}
     for name in FAMILY:
         fi = ci.methods.get(name)
